@@ -15,7 +15,7 @@ int const PLACEMENTS[] = { 0, 1, 3, 4, 5, 7, 2 };
 const char* EXT[] = { "99.0.0.1", "99.0.0.77" };
 const char* SEXT = "88.0.0.1";
 
-struct Scn { int placement; int ext; int traffic; /*0 udp c->s, 1 udp s->c, 2..4 tcp overloads*/ int client; /*0 C1, 1 C2*/ int port; /*0 explicit, 1 ephemeral*/ int lossy; /*1: finite tail-drop channel queue, bigger TCP payload*/ };
+struct Scn { int placement; int ext; int traffic; /*0 udp c->s, 1 udp s->c, 2..4 tcp overloads*/ int client; /*0 C1, 1 C2*/ int port; /*0 explicit, 1 ephemeral, 2 the same port number as the one the server is bound to*/ int lossy; /*1: finite tail-drop channel queue, bigger TCP payload*/ };
 
 struct Result { std::vector<std::string> events; std::vector<std::string> fails; std::vector<int64_t> times; };
 
@@ -55,7 +55,7 @@ Result run_scn(Scn const& sc, bool with_nat, Ctx* ctx)
 
 	if (sc.traffic <= 1) {
 		ip::udp::socket c(nC), s(nS);
-		c.open(ip::udp::v4()); c.bind(ip::udp::endpoint(addr(caddr.c_str()), sc.port ? 0 : 4000)); c.non_blocking(true);
+		c.open(ip::udp::v4()); c.bind(ip::udp::endpoint(addr(caddr.c_str()), (unsigned short)(sc.port == 1 ? 0 : sc.port == 2 ? 5000 : 4000))); c.non_blocking(true);
 		s.open(ip::udp::v4()); s.bind(ip::udp::endpoint(addr("10.0.1.1"), 5000)); s.non_blocking(true);
 		int cport = c.local_endpoint().port();
 		ip::udp::socket& tx = sc.traffic == 0 ? c : s; ip::udp::socket& rx = sc.traffic == 0 ? s : c;
@@ -82,7 +82,7 @@ Result run_scn(Scn const& sc, bool with_nat, Ctx* ctx)
 		ip::tcp::socket peer(nS), cli(nC);
 		std::unique_ptr<ip::tcp::socket> peer2; ip::tcp::endpoint peer_ep; bool accepted = false, connected = false;
 		ip::tcp::socket* srv = &peer;
-		cli.open(ip::tcp::v4()); if (!sc.port) cli.bind(ip::tcp::endpoint(addr(caddr.c_str()), 4000));
+		cli.open(ip::tcp::v4()); if (sc.port != 1) cli.bind(ip::tcp::endpoint(addr(caddr.c_str()), (unsigned short)(sc.port == 2 ? 6000 : 4000)));
 		std::string from_c, from_s; std::vector<char> bc, bs;
 		std::string msg_c = "hello-from-client", msg_s = "hello-from-server"; if (sc.lossy) { msg_c.resize(12000); msg_s.resize(9000); for (size_t i = 0; i < msg_c.size(); ++i) msg_c[i] = char('a' + i % 23); for (size_t i = 0; i < msg_s.size(); ++i) msg_s[i] = char('A' + i % 19); }
 		auto start_io = [&]() {
@@ -192,7 +192,7 @@ Result run_mh(MhCfg const& mc, Ctx* ctx)
 	return R;
 }
 
-std::string scn_str(Scn const& s) { return fmt("placement=%d ext=%s traffic=%d client=C%d port=%s route=%s", s.placement, EXT[s.ext], s.traffic, s.client + 1, s.port ? "ephemeral" : "4000", s.lossy ? "lossy" : "loss-free"); }
+std::string scn_str(Scn const& s) { return fmt("placement=%d ext=%s traffic=%d client=C%d port=%s route=%s", s.placement, EXT[s.ext], s.traffic, s.client + 1, s.port == 1 ? "ephemeral" : s.port == 2 ? "the same number as the server's port" : "4000", s.lossy ? "lossy" : "loss-free"); }
 
 struct NatEngine : Engine
 {
@@ -201,7 +201,7 @@ struct NatEngine : Engine
 	{
 		mh.clear(); for (int f = 0; f < 2; ++f) for (int r = 0; r < 3; ++r) for (int p = 0; p < 2; ++p) mh.push_back(MhCfg{ f, r, p });
 		all.clear();
-		for (int p : PLACEMENTS) for (int e = 0; e < 2; ++e) for (int t = 0; t < 5; ++t) for (int c = 0; c < 2; ++c) for (int port = 0; port < 2; ++port) for (int l = 0; l < 2; ++l) all.push_back(Scn{ p, e, t, c, port, l });
+		for (int p : PLACEMENTS) for (int e = 0; e < 2; ++e) for (int t = 0; t < 5; ++t) for (int c = 0; c < 2; ++c) for (int port = 0; port < 3; ++port) for (int l = 0; l < 2; ++l) all.push_back(Scn{ p, e, t, c, port, l });
 		return all.size() + mh.size();
 	}
 	static void judge(Scn const& sc, Result const& nat, Result const& plain, std::vector<std::string>& fails)
